@@ -726,6 +726,15 @@ def gen_system(rnd, cfg=None, deterministic_mass=False, min_components=1):
     return text, tags, sysw
 
 
+# systems that are NOT generable although their total mass is known: one component cannot be generated
+# (stochastic object without distribution, negative weight); iteration must refuse, whatever the random choices
+NON_GENERABLE_KNOWN_MASS = [
+    ("CCO.|95|N{[$][$]CC[$][$]}O.|5|", None),
+    ("CCO.|60%|CCN.|39.5%|N{[>][<]CC[>][<]}O", 300.0),
+    ("CCO.|99%|C{[>][<|-1|]CC[>][<]}|gauss(50, 5)|C.|300|", None),
+    ("C{[>][<]CC[>][<]}C.|200|", None),
+    ("CCCCC.|500|O{[>][<]CCO[>][<]}[H].|0.5|", None),
+]
 NON_GENERABLE_SYSTEMS = [
     "CCO",
     "CCO.|50%|CC",
